@@ -84,4 +84,23 @@ structure LinExt (L : Layout) (sched : List Task) : Prop where
   all : ∀ t, t ∈ sched ↔ exists_ L t = true
   order : sched.Pairwise fun a b => b ∉ parents L a
 
+
+/-! ### one thread
+
+With a single thread the worker loop has no concurrency left: it pops a task from its queue, runs
+it, releases the children, and pops the next one.  `pick` stands for the queue discipline (which of
+the ready tasks `TaskQueue::get_task` returns: any function of the list of ready tasks). -/
+
+/-- the tasks that can be started after `done`: not yet executed, all parents executed -/
+def ready (L : Layout) (done : List Task) : List Task :=
+  (allTasks L).filter fun t => decide (t ∉ done) && (parents L t).all (fun p => decide (p ∈ done))
+
+/-- the order in which one thread executes the tasks (at most `n` more tasks after `done`) -/
+def oneThreadOrder (L : Layout) (pick : List Task → Option Task) : Nat → List Task → List Task
+  | 0, done => done
+  | n + 1, done =>
+    match pick (ready L done) with
+    | some t => oneThreadOrder L pick n (done ++ [t])
+    | none => done
+
 end CMacVerif.HydroTasks
